@@ -3,7 +3,6 @@ package yqlib
 import (
 	"container/list"
 	"fmt"
-	"strconv"
 )
 
 type compareTypePref struct {
@@ -99,21 +98,26 @@ func compareScalars(context Context, prefs compareTypePref, lhs *CandidateNode, 
 		}
 		return lhsNum < rhsNum, nil
 	} else if (lhsTag == "!!int" || lhsTag == "!!float") && (rhsTag == "!!int" || rhsTag == "!!float") {
-		lhsNum, err := strconv.ParseFloat(lhs.Value, 64)
+		// compare exactly, the way sort does: not every int64 fits a float64
+		lhsNum, lhsNaN, err := sortableNumber(lhs, lhsTag)
 		if err != nil {
 			return false, err
 		}
-		rhsNum, err := strconv.ParseFloat(rhs.Value, 64)
+		rhsNum, rhsNaN, err := sortableNumber(rhs, rhsTag)
 		if err != nil {
 			return false, err
 		}
-		if prefs.OrEqual && lhsNum == rhsNum {
+		if lhsNaN || rhsNaN {
+			return false, fmt.Errorf("%v not yet supported for comparison", ".nan")
+		}
+		cmp := lhsNum.Cmp(rhsNum)
+		if prefs.OrEqual && cmp == 0 {
 			return true, nil
 		}
 		if prefs.Greater {
-			return lhsNum > rhsNum, nil
+			return cmp > 0, nil
 		}
-		return lhsNum < rhsNum, nil
+		return cmp < 0, nil
 	} else if lhsTag == "!!str" && rhsTag == "!!str" {
 		if prefs.OrEqual && lhs.Value == rhs.Value {
 			return true, nil
